@@ -241,3 +241,279 @@ Proof.
     destruct (nth_error cvs i) as [[c0 v0]|] eqn:E0; inversion E; subst.
     cbn [it_step fst snd]. rewrite (wb_prev _ _ _ H _ _ _ E0). cbn [bind]. now apply (map_wrap_before f).
 Qed.
+
+(* ------------------------------------------------------------------ Filter over a well-behaved iterable *)
+Definition acc_of (p : val -> bool) (cv : cur * val) : bool := p (snd cv).
+
+Lemma skipn_cons_nth {A} (l : list A) : forall i x, nth_error l i = Some x -> skipn i l = x :: skipn (S i) l.
+Proof.
+  induction l; intros [|i] x E; simpl in *; try discriminate.
+  - now inversion E.
+  - now apply IHl.
+Qed.
+
+Lemma firstn_snoc_nth {A} (l : list A) : forall i x, nth_error l i = Some x -> firstn (S i) l = firstn i l ++ [x].
+Proof.
+  induction l; intros [|i] x E; simpl in *; try discriminate.
+  - now inversion E.
+  - f_equal. now apply IHl.
+Qed.
+
+Lemma cur_at_skipn cvs k i : cur_at (skipn k cvs) i = cur_at cvs (k + i).
+Proof.
+  unfold cur_at. f_equal. revert cvs. induction k; intros cvs; simpl; auto.
+  destruct cvs; simpl; auto. now destruct i.
+Qed.
+
+Lemma cur_at_firstn cvs k i : (i < k)%nat -> cur_at (firstn k cvs) i = cur_at cvs i.
+Proof.
+  unfold cur_at. intros H. f_equal. revert cvs i H. induction k; intros cvs i H; [lia|].
+  destruct cvs; simpl; auto. destruct i; simpl; auto. apply IHk. lia.
+Qed.
+
+Lemma cur_before_firstn cvs k : (k <= length cvs)%nat ->
+  cur_before (firstn k cvs) (length (firstn k cvs)) = cur_before cvs k.
+Proof.
+  intros H. rewrite firstn_length_le by auto. destruct k; [reflexivity|]. cbn [cur_before]. apply cur_at_firstn. lia.
+Qed.
+
+Lemma filter_loop_fwd f u cvs p (H : wb f u cvs) :
+  forall m i k, (length cvs <= i + m)%nat -> (m <= k)%nat ->
+    filter_loop (it_step R f Fwd u) (cur_val u) p k (cur_at cvs i) =
+    OVal (cur_at (filter (acc_of p) (skipn i cvs)) 0).
+Proof.
+  induction m; intros i k Hi Hk.
+  - assert (cur_at cvs i = None) as -> by (apply cur_at_none; lia).
+    rewrite skipn_all2 by lia. destruct k; reflexivity.
+  - destruct (nth_error cvs i) as [[c v]|] eqn:E.
+    2:{ apply nth_error_None in E. assert (cur_at cvs i = None) as -> by (apply cur_at_none; lia).
+        rewrite skipn_all2 by lia. destruct k; reflexivity. }
+    unfold cur_at at 1. rewrite E. rewrite (skipn_cons_nth _ _ _ E).
+    destruct k as [|k]; [lia|].
+    cbn [option_map fst filter_loop filter]. rewrite (wb_val _ _ _ H _ _ _ E). cbn [bind].
+    unfold acc_of at 1. cbn [snd]. destruct (p v); [reflexivity|].
+    rewrite (wb_next _ _ _ H _ _ _ E). cbn [bind]. apply IHm; lia.
+Qed.
+
+Lemma filter_loop_bwd f u cvs p (H : wb f u cvs) :
+  forall i k, (i <= length cvs)%nat -> (i <= k)%nat ->
+    filter_loop (it_step R f Bwd u) (cur_val u) p k (cur_before cvs i) =
+    OVal (let l := filter (acc_of p) (firstn i cvs) in cur_before l (length l)).
+Proof.
+  induction i; intros k Hi Hk.
+  - destruct k; reflexivity.
+  - destruct (nth_error cvs i) as [[c v]|] eqn:E.
+    2:{ apply nth_error_None in E. lia. }
+    cbn [cur_before]. unfold cur_at at 1. rewrite E. rewrite (firstn_snoc_nth _ _ _ E).
+    destruct k as [|k]; [lia|].
+    cbn [option_map fst filter_loop]. rewrite (wb_val _ _ _ H _ _ _ E). cbn [bind].
+    rewrite filter_app. cbn [filter]. change (acc_of p (c, v)) with (p v). destruct (p v).
+    + cbv zeta. rewrite app_length. cbn [length]. rewrite Nat.add_1_r. cbn [cur_before].
+      unfold cur_at. rewrite nth_error_app2 by lia. now rewrite Nat.sub_diag.
+    + rewrite (wb_prev _ _ _ H _ _ _ E). cbn [bind]. rewrite app_nil_r. apply IHi; lia.
+Qed.
+
+Lemma filter_nth_split {A} (P : A -> bool) (l : list A) : forall j x,
+  nth_error (filter P l) j = Some x ->
+  exists i, nth_error l i = Some x /\ P x = true /\
+            filter P (firstn i l) = firstn j (filter P l) /\
+            filter P (skipn (S i) l) = skipn (S j) (filter P l).
+Proof.
+  induction l as [|a l IH]; intros j x E; simpl in *.
+  - destruct j; discriminate.
+  - destruct (P a) eqn:Pa.
+    + destruct j as [|j]; simpl in E.
+      * inversion E; subst. exists 0%nat. simpl. rewrite Pa. auto.
+      * destruct (IH _ _ E) as (i & E1 & Px & F1 & F2). exists (S i). simpl. rewrite Pa.
+        repeat split; auto. now f_equal.
+    + destruct (IH _ _ E) as (i & E1 & Px & F1 & F2). exists (S i). simpl. rewrite Pa. auto.
+Qed.
+
+Theorem wb_filter f u cvs p : wb f u cvs -> (length cvs <= f)%nat ->
+  wb f (IFilter p u) (filter (acc_of p) cvs).
+Proof.
+  intros H Hf. constructor.
+  - cbn [it_start]. rewrite (wb_init _ _ _ H). cbn [bind].
+    now rewrite (filter_loop_fwd f u cvs p H (length cvs) 0%nat f) by lia.
+  - cbn [it_start]. rewrite (wb_last _ _ _ H). cbn [bind].
+    rewrite (filter_loop_bwd f u cvs p H (length cvs) f) by lia. now rewrite firstn_all.
+  - intros j c v E. destruct (filter_nth_split _ _ _ _ E) as (i & E1 & _). cbn [cur_val].
+    apply (wb_val _ _ _ H _ _ _ E1).
+  - intros j c v E. destruct (filter_nth_split _ _ _ _ E) as (i & E1 & _ & _ & F2).
+    cbn [it_step]. rewrite (wb_next _ _ _ H _ _ _ E1). cbn [bind].
+    rewrite (filter_loop_fwd f u cvs p H (length cvs) (S i) f) by lia.
+    rewrite F2, cur_at_skipn. now rewrite Nat.add_0_r.
+  - intros j c v E. destruct (filter_nth_split _ _ _ _ E) as (i & E1 & _ & F1 & _).
+    cbn [it_step]. rewrite (wb_prev _ _ _ H _ _ _ E1). cbn [bind].
+    assert (i < length cvs)%nat by (apply nth_error_Some; congruence).
+    rewrite (filter_loop_bwd f u cvs p H i f) by lia. cbv zeta. rewrite F1.
+    assert (j < length (filter (acc_of p) cvs))%nat by (apply nth_error_Some; congruence).
+    now rewrite cur_before_firstn by lia.
+Qed.
+
+Lemma filter_chain_snd p cvs : map snd (filter (acc_of p) cvs) = filter p (map snd cvs).
+Proof.
+  induction cvs as [|[c v] l IH]; simpl; auto. unfold acc_of at 1. simpl.
+  destruct (p v); simpl; now rewrite IH.
+Qed.
+
+(* ------------------------------------------------------------------ Range: arithmetic *)
+Definition box : Z := 4611686018427387904.   (* 2^62 *)
+Definition in_box (r : rng) : Prop :=
+  - box < r_start r < box /\ - box < r_stop r < box /\ - box < r_step r < box /\ r_step r <> 0.
+
+Lemma wrap64_id x : - two63 <= x < two63 -> wrap64 x = x.
+Proof. intros H. unfold wrap64. rewrite Z.mod_small; unfold two63 in *; lia. Qed.
+
+(* the number of items and the i-th item of range(start, stop, step), as the definition says *)
+Definition range_count (r : rng) : Z :=
+  if r_stop r <=? r_start r then 0 else (r_stop r - 1 - r_start r) / Z.abs (r_step r) + 1.
+Definition range_val (r : rng) (i : Z) : Z :=
+  (if 0 <? r_step r then r_start r else r_stop r - 1) + r_step r * i.
+Definition range_elems (r : rng) : list Z :=
+  map (fun i => range_val r (Z.of_nat i)) (seq 0 (Z.to_nat (range_count r))).
+
+Lemma div_le_iff D a i : 0 < a -> (a * i <= D <-> i <= D / a).
+Proof.
+  intros Ha. split; intros H.
+  - apply Z.div_le_lower_bound; auto.
+  - pose proof (Z.mul_div_le D a Ha). nia.
+Qed.
+
+Lemma range_count_nonneg r : 0 <= range_count r.
+Proof.
+  unfold range_count. destruct (Z.leb_spec (r_stop r) (r_start r)); [lia|].
+  destruct (Z.eq_dec (r_step r) 0) as [E|E].
+  - rewrite E. simpl. rewrite Zdiv_0_r. lia.
+  - assert (0 <= (r_stop r - 1 - r_start r) / Z.abs (r_step r)) by (apply Z.div_pos; lia). lia.
+Qed.
+
+Lemma range_count_bound r : in_box r -> range_count r < two63 /\
+  (0 < range_count r -> Z.abs (r_step r) * (range_count r - 1) <= r_stop r - 1 - r_start r).
+Proof.
+  intros (Hs & Ht & Hp & Hn). unfold range_count, box, two63 in *.
+  destruct (Z.leb_spec (r_stop r) (r_start r)); [lia|].
+  assert (Ha : 0 < Z.abs (r_step r)) by lia.
+  pose proof (Z.mul_div_le (r_stop r - 1 - r_start r) _ Ha).
+  assert ((r_stop r - 1 - r_start r) / Z.abs (r_step r) <= r_stop r - 1 - r_start r).
+  { apply Z.div_le_upper_bound; auto. nia. }
+  split; [lia|]. intros _. replace ((r_stop r - 1 - r_start r) / Z.abs (r_step r) + 1 - 1) with
+    ((r_stop r - 1 - r_start r) / Z.abs (r_step r)) by lia. lia.
+Qed.
+
+(* i < count  <->  the i-th value is still inside [start, stop) *)
+Lemma range_in_iff r i : in_box r -> 0 <= i ->
+  (i < range_count r <->
+   if 0 <? r_step r then range_val r i < r_stop r else r_start r <= range_val r i).
+Proof.
+  intros (Hs & Ht & Hp & Hn) Hi. unfold range_count, range_val.
+  destruct (Z.leb_spec (r_stop r) (r_start r)) as [Hle|Hlt].
+  - destruct (Z.ltb_spec 0 (r_step r)); split; intros; try lia; nia.
+  - assert (Ha : 0 < Z.abs (r_step r)) by lia.
+    pose proof (div_le_iff (r_stop r - 1 - r_start r) _ i Ha) as Hd.
+    destruct (Z.ltb_spec 0 (r_step r)).
+    + rewrite Z.abs_eq in * by lia. split; intros; [assert (r_step r * i <= r_stop r - 1 - r_start r) by (apply Hd; lia) | assert (i <= (r_stop r - 1 - r_start r) / r_step r) by (apply Hd; lia)]; lia.
+    + rewrite Z.abs_neq in * by lia. split; intros; [assert (- r_step r * i <= r_stop r - 1 - r_start r) by (apply Hd; lia) | assert (i <= (r_stop r - 1 - r_start r) / - r_step r) by (apply Hd; lia)]; lia.
+Qed.
+
+Lemma range_val_bounds r i : in_box r -> 0 <= i < range_count r ->
+  r_start r <= range_val r i < r_stop r.
+Proof.
+  intros Hb Hi. pose proof (proj1 (range_in_iff r i Hb (proj1 Hi)) (proj2 Hi)) as H.
+  destruct Hb as (Hs & Ht & Hp & Hn). unfold range_val in *.
+  destruct (Z.ltb_spec 0 (r_step r)); nia.
+Qed.
+
+Lemma range_len_ok r : in_box r -> range_len R r = range_count r.
+Proof.
+  intros Hb. pose proof (range_count_bound r Hb) as [Hc _]. pose proof (range_count_nonneg r) as Hc0.
+  destruct Hb as (Hs & Ht & Hp & Hn).
+  unfold range_len, range_count in *. cbn [range_len_guard repaired andb].
+  destruct (Z.eqb_spec (r_step r) 0); [contradiction|].
+  destruct (Z.leb_spec (r_stop r) (r_start r)); [reflexivity|].
+  unfold box, two63 in *.
+  rewrite (wrap64_id (r_stop r - 1)) by (unfold two63; lia).
+  rewrite (wrap64_id (r_stop r - 1 - r_start r)) by (unfold two63; lia).
+  destruct (Z.ltb_spec 0 (r_step r)).
+  - rewrite Z.abs_eq in * by lia. rewrite Z.quot_div_nonneg by lia. apply wrap64_id. unfold two63. lia.
+  - rewrite Z.abs_neq in * by lia. rewrite (wrap64_id (- r_step r)) by (unfold two63; lia).
+    rewrite Z.quot_div_nonneg by lia. apply wrap64_id. unfold two63. lia.
+Qed.
+
+Lemma range_init_ok r : in_box r ->
+  range_init r = if 0 <? range_count r then Some (range_val r 0) else None.
+Proof.
+  intros Hb. pose proof (range_in_iff r 0 Hb (Z.le_refl 0)) as Hi.
+  destruct Hb as (Hs & Ht & Hp & Hn). unfold range_init, range_val in *. unfold box in *.
+  rewrite (wrap64_id (r_stop r - 1)) by (unfold two63; lia).
+  destruct (Z.eqb_spec (r_step r) 0); [contradiction|]. rewrite !Z.mul_0_r, !Z.add_0_r in *.
+  destruct (Z.ltb_spec 0 (r_step r)); cbn [andb].
+  - replace (r_step r <? 0) with false by (symmetry; apply Z.ltb_ge; lia). cbn [andb].
+    destruct (Z.leb_spec (r_stop r) (r_start r)); destruct (Z.ltb_spec 0 (range_count r)); auto; lia.
+  - replace (r_step r <? 0) with true by (symmetry; apply Z.ltb_lt; lia). cbn [andb].
+    destruct (Z.ltb_spec (r_stop r - 1) (r_start r)); destruct (Z.ltb_spec 0 (range_count r)); auto; lia.
+Qed.
+
+Lemma range_next_ok r i : in_box r -> 0 <= i < range_count r ->
+  range_next r (range_val r i) = if i + 1 <? range_count r then Some (range_val r (i + 1)) else None.
+Proof.
+  intros Hb Hi. pose proof (range_val_bounds r i Hb Hi) as Hv.
+  assert (Hi1 : 0 <= i + 1) by lia. pose proof (range_in_iff r (i + 1) Hb Hi1) as Hn1.
+  destruct Hb as (Hs & Ht & Hp & Hn). unfold range_next. unfold box in *.
+  assert (range_val r i + r_step r = range_val r (i + 1)) as Hstep by (unfold range_val; lia).
+  rewrite (wrap64_id (range_val r i + r_step r)) by (unfold two63; lia). rewrite Hstep.
+  destruct (Z.eqb_spec (r_step r) 0); [contradiction|].
+  destruct (Z.ltb_spec 0 (r_step r)); cbn [andb].
+  - replace (r_step r <? 0) with false by (symmetry; apply Z.ltb_ge; lia). cbn [andb].
+    destruct (Z.leb_spec (r_stop r) (range_val r (i + 1))); destruct (Z.ltb_spec (i + 1) (range_count r)); auto; lia.
+  - replace (r_step r <? 0) with true by (symmetry; apply Z.ltb_lt; lia). cbn [andb].
+    destruct (Z.ltb_spec (range_val r (i + 1)) (r_start r)); destruct (Z.ltb_spec (i + 1) (range_count r)); auto; lia.
+Qed.
+
+Lemma range_prev_ok r i : in_box r -> 0 <= i < range_count r ->
+  range_prev r (range_val r i) = if 0 <? i then Some (range_val r (i - 1)) else None.
+Proof.
+  intros Hb Hi. pose proof (range_val_bounds r i Hb Hi) as Hv.
+  assert (H0 : 0 <= 0 < range_count r) by lia. pose proof (range_val_bounds r 0 Hb H0) as Hv0.
+  destruct (Z.ltb_spec 0 i) as [Hpos|Hz].
+  - assert (Hi1 : 0 <= i - 1 < range_count r) by lia. pose proof (range_val_bounds r (i - 1) Hb Hi1) as Hv1.
+    destruct Hb as (Hs & Ht & Hp & Hn). unfold range_prev. unfold box in *.
+    assert (range_val r i - r_step r = range_val r (i - 1)) as Hstep by (unfold range_val; lia).
+    rewrite (wrap64_id (range_val r i - r_step r)) by (unfold two63; lia). rewrite Hstep.
+    destruct (Z.eqb_spec (r_step r) 0); [contradiction|].
+    replace (range_val r (i - 1) <? r_start r) with false by (symmetry; apply Z.ltb_ge; lia).
+    replace (r_stop r <=? range_val r (i - 1)) with false by (symmetry; apply Z.leb_gt; lia).
+    now rewrite !andb_false_r.
+  - assert (i = 0) by lia. subst i.
+    destruct Hb as (Hs & Ht & Hp & Hn). unfold range_prev. unfold box in *.
+    rewrite (wrap64_id (range_val r 0 - r_step r)) by (unfold two63; lia).
+    destruct (Z.eqb_spec (r_step r) 0); [contradiction|].
+    unfold range_val in *. rewrite Z.mul_0_r, Z.add_0_r in *.
+    destruct (Z.ltb_spec 0 (r_step r)); cbn [andb].
+    + replace (r_start r - r_step r <? r_start r) with true by (symmetry; apply Z.ltb_lt; lia). reflexivity.
+    + replace (r_step r <? 0) with true by (symmetry; apply Z.ltb_lt; lia). cbn [andb].
+      replace (r_stop r <=? r_stop r - 1 - r_step r) with true by (symmetry; apply Z.leb_le; lia). reflexivity.
+Qed.
+
+Lemma range_last_ok r : in_box r ->
+  range_last R r = if 0 <? range_count r then Some (range_val r (range_count r - 1)) else None.
+Proof.
+  intros Hb. unfold range_last. cbn [range_last_aligned repaired]. rewrite (range_len_ok r Hb).
+  pose proof (range_count_nonneg r) as Hc0. pose proof (range_count_bound r Hb) as [Hc Hm].
+  destruct (Z.eqb_spec (range_count r) 0) as [E|E].
+  - rewrite E. reflexivity.
+  - replace (0 <? range_count r) with true by (symmetry; apply Z.ltb_lt; lia).
+    assert (Hl : 0 <= range_count r - 1 < range_count r) by lia.
+    pose proof (range_val_bounds r _ Hb Hl) as Hv. specialize (Hm ltac:(lia)).
+    destruct Hb as (Hs & Ht & Hp & Hn). unfold box in *.
+    rewrite (wrap64_id (range_count r - 1)) by (unfold two63 in *; lia).
+    rewrite (wrap64_id (r_stop r - 1)) by (unfold two63; lia).
+    assert (- two63 <= r_step r * (range_count r - 1) < two63).
+    { unfold two63. destruct (Z.ltb_spec 0 (r_step r)); [rewrite Z.abs_eq in Hm by lia | rewrite Z.abs_neq in Hm by lia]; nia. }
+    rewrite (wrap64_id (r_step r * (range_count r - 1))) by auto.
+    unfold range_val in *.
+    destruct (Z.ltb_spec 0 (r_step r)).
+    + f_equal. apply wrap64_id. unfold two63. lia.
+    + replace (r_step r <? 0) with true by (symmetry; apply Z.ltb_lt; lia).
+      f_equal. apply wrap64_id. unfold two63. lia.
+Qed.
